@@ -1,6 +1,8 @@
 package main
 
 import (
+	"bufio"
+	"net"
 	"io"
 	"net/http"
 )
@@ -23,6 +25,12 @@ func newRecWriter(script []int) *recWriter {
 }
 
 func (w *recWriter) Header() http.Header { return w.hdr }
+
+// Hijack makes the recording writer an http.Hijacker (no real connection is involved)
+func (w *recWriter) Hijack() (net.Conn, *bufio.ReadWriter, error) {
+	w.log = append(w.log, L(A("hijacked")))
+	return nil, nil, nil
+}
 
 func (w *recWriter) WriteHeader(code int) {
 	if w.nWH == 0 {
